@@ -172,6 +172,15 @@ class PyList:
         return f'PyList({self.segs})'
 
 
+class PR:
+    """A pyparsing ParseResults as seen by a parse action: named results with a presence flag each
+    (the names the grammar can produce are static), and optionally positional tokens."""
+
+    def __init__(self, named, pos=None):
+        self.named = named        # name -> (present: z3 Bool | True, value SV)
+        self.pos = pos or []      # list of SV
+
+
 class Gen:
     """A lazy generator expression (evaluated when consumed)."""
 
@@ -1141,11 +1150,15 @@ class Interp:
                 res = self.call_function(it, [v], {}, None)
                 return self.segments(res)
         if v.k == 'val' and v.T is not None:
-            alts = [a for a in type_alternatives(v.T) if a[0] != 'none']
-            if len(alts) == 1 and alts[0][0] in ('list',):
-                if self.decide(v.e == Val.none):
-                    raise PyRaise(TypeError, (), 'iterate None')
-                return self.segments(self.unbox(v.e, alts[0]))
+            allalts = type_alternatives(v.T)
+            alts = [a for a in allalts if a[0] != 'none']
+            if any(a[0] == 'none' for a in allalts) and self.decide(v.e == Val.none):
+                raise PyRaise(TypeError, (), 'iterate None')
+            lists = [a for a in alts if a[0] == 'list']
+            if len(lists) == 1:
+                if len(alts) == 1 or self.decide(z3.And(Val.is_r(v.e), cls_of(Val.rv(v.e)) == self.reg.cid('list'))):
+                    return self._segments(self.unbox(v.e, lists[0]))
+                raise PyRaise(TypeError, (), 'object is not iterable')
         if v.k == 'iter':
             return v.py
         raise Unsupported(f'iteration over {v.k} {v.cls}')
@@ -1740,6 +1753,47 @@ class Interp:
             return z3.BoolVal(False)
         raise Unsupported(f'== between {ka} and {kb}')
 
+    def const_str(self, v: SV) -> str:
+        if v.k != 'str':
+            raise Unsupported('a literal string is expected here')
+        c = z3.simplify(v.e)
+        if not z3.is_string_value(c):
+            raise Unsupported('a literal string is expected here')
+        return c.as_string()
+
+    def presults_getitem(self, obj: SV, idx: SV) -> SV:
+        pr: PR = obj.py
+        if idx.k == 'str':
+            name = self.const_str(idx)
+            ent = pr.named.get(name)
+            if ent is None:
+                raise PyRaise(KeyError, (idx,), f'ParseResults[{name!r}]')
+            present = ent[0] if not isinstance(ent[0], bool) else z3.BoolVal(ent[0])
+            if not self.decide(present):
+                raise PyRaise(KeyError, (idx,), f'ParseResults[{name!r}]')
+            return ent[1]
+        i = self.concrete_int(idx)
+        if not -len(pr.pos) <= i < len(pr.pos):
+            raise PyRaise(IndexError, (), 'ParseResults index')
+        return pr.pos[i]
+
+    def presults_method(self, obj: SV, name: str, args, kw) -> SV:
+        pr: PR = obj.py
+        if name == 'get':
+            key = self.const_str(args[0])
+            default = args[1] if len(args) > 1 else NONE
+            ent = pr.named.get(key)
+            if ent is None:
+                return default
+            present = ent[0] if not isinstance(ent[0], bool) else z3.BoolVal(ent[0])
+            if self.decide(present):
+                return ent[1]
+            return default
+        raise Unsupported(f'ParseResults.{name}')
+
+    def presults_len(self, obj: SV) -> SV:
+        return mk_int(len(obj.py.pos))
+
     def list_equal(self, a: PyList, b: PyList):
         """`xs == ys` for two Python-side lists, segment by segment."""
         sa = a.segs if a.href is None else [self.heap_seg(a.href, a.T)]
@@ -1771,6 +1825,12 @@ class Interp:
         """`x in container`"""
         st = self.st
         c = container
+        if c.k == 'presults':
+            name = self.const_str(x)
+            ent = c.py.named.get(name)
+            if ent is None:
+                return z3.BoolVal(False)
+            return ent[0] if not isinstance(ent[0], bool) else z3.BoolVal(ent[0])
         if c.k == 'str':
             return z3.Contains(c.e, self.as_str(x, 'in'))
         if c.k == 'tuple' or (c.k == 'pylist' and c.py.href is None and c.py.all_items()):
@@ -2136,6 +2196,12 @@ class Interp:
                 raise PyRaise(TypeError, (), 'None is not subscriptable')
             if len(alts) == 1:
                 return self.getitem(self.unbox(obj.e, alts[0]), idx)
+            for a in alts:
+                if a[0] in ('list', 'dict') and self.decide(z3.And(Val.is_r(obj.e), cls_of(Val.rv(obj.e)) == self.reg.cid(a[0]))):
+                    return self.getitem(self.unbox(obj.e, a), idx)
+                if a[0] == 'obj' and self.decide(z3.And(Val.is_r(obj.e), cls_of(Val.rv(obj.e)) == self.reg.cid(a[1]))):
+                    return self.getitem(SV('ref', Val.rv(obj.e), cls=a[1]), idx)
+            raise PyRaise(TypeError, (), 'object is not subscriptable')
         if k == 'const' and isinstance(obj.py, dict):
             if idx.k == 'const':
                 if idx.py in obj.py:
@@ -2300,22 +2366,70 @@ class Interp:
         st = self.st
         r = d.e
         # every key must be a parameter name, and not already bound
-        kq = z3.String('k!d')
-        ok = z3.ForAll([kq], z3.Implies(st.D_has[r][kq], z3.Or(*[kq == SVAL(n) for n in missing]) if missing else z3.BoolVal(False)),
-                       patterns=[st.D_has[r][kq]])
-        if not self.decide(ok):
-            raise PyRaise(TypeError, (), 'unexpected keyword argument from **dict')
+        lit = self.dict_literal_keys(r)
+        if lit is not None:
+            # the dict was built in this call from literal keys: check them one by one
+            for kname in lit:
+                if kname not in missing:
+                    if self.decide(st.D_has[r][SVAL(kname)]):
+                        raise PyRaise(TypeError, (), f'unexpected or repeated keyword argument {kname!r} from **dict')
+        else:
+            kq = z3.String('k!d')
+            ok = z3.ForAll([kq], z3.Implies(st.D_has[r][kq], z3.Or(*[kq == SVAL(n) for n in missing]) if missing else z3.BoolVal(False)))
+            if not self.decide(ok):
+                raise PyRaise(TypeError, (), 'unexpected keyword argument from **dict')
         for n in missing:
-            has = st.D_has[r][SVAL(n)]
+            has = z3.simplify(st.D_has[r][SVAL(n)])
             if n in defaults:
                 dv = defaults[n]
                 dsv = dv if isinstance(dv, SV) else self.lift(dv)
-                present = self.decide(has)
-                locs[n] = self.dict_get(r, SVAL(n), d.T) if present else dsv
+                if z3.is_true(has):
+                    locs[n] = self.dict_get(r, SVAL(n), d.T)
+                elif z3.is_false(has):
+                    locs[n] = dsv
+                else:
+                    # one path: the entry if present, else the default
+                    try:
+                        locs[n] = SV('val', z3.If(has, st.D_val[r][SVAL(n)], self.box(dsv)), T=('any',))
+                    except Unsupported:
+                        present = self.decide(has)
+                        locs[n] = self.dict_get(r, SVAL(n), d.T) if present else dsv
             else:
                 if not self.decide(has):
                     raise PyRaise(TypeError, (), f'missing argument {n}')
                 locs[n] = self.dict_get(r, SVAL(n), d.T)
+
+    def dict_literal_keys(self, r):
+        """Literal keys of a dict whose membership array is a chain of stores at string literals over
+        the empty dict; None if the dict is not of that shape."""
+        cur = self.peel_arr(self.st.D_has, r)
+        keys = []
+        while z3.is_app(cur) and cur.decl().kind() == z3.Z3_OP_STORE:
+            k = cur.arg(1)
+            if not z3.is_string_value(k):
+                return None
+            keys.append(k.as_string())
+            cur = cur.arg(0)
+        if z3.is_app(cur) and cur.decl().kind() == z3.Z3_OP_CONST_ARRAY:
+            return list(dict.fromkeys(keys))
+        return None
+
+    def peel_arr(self, arr, r):
+        """the inner array stored for object r (like peel, but returns the array term itself)"""
+        cur = arr
+        ro = self.fresh_offset(r)
+        r_old = ro is None and self.is_old_term(r)
+        while z3.is_app(cur) and cur.decl().kind() == z3.Z3_OP_STORE:
+            idx = cur.arg(1)
+            if idx.eq(r):
+                return cur.arg(2)
+            io = self.fresh_offset(idx)
+            if (io is not None and (r_old or (ro is not None and ro != io))) or \
+                    (ro is not None and io is None and self.is_old_term(idx)):
+                cur = cur.arg(0)
+                continue
+            break
+        return cur[r]
 
     def call_closure(self, c: Closure, args, kwargs) -> SV:
         node = c.node
@@ -2585,8 +2699,55 @@ class Interp:
         lst.py.segs.append(('opt', c, item))
         return True
 
+    def optional_setitem(self, s, fr):
+        """`if c: d['lit'] = e` on a dict allocated in this call: one path with a conditional entry."""
+        if s.orelse or len(s.body) != 1 or not isinstance(s.body[0], ast.Assign):
+            return False
+        a = s.body[0]
+        if len(a.targets) != 1 or not isinstance(a.targets[0], ast.Subscript):
+            return False
+        t = a.targets[0]
+        if not (isinstance(t.value, ast.Name) and isinstance(t.slice, ast.Constant) and isinstance(t.slice.value, str)):
+            return False
+        d = fr.lookup(t.value.id)
+        if d is None or d.k != 'ref' or d.cls != 'dict' or not self.is_fresh(d.e) or getattr(self, 'binder', 0):
+            return False
+        if getattr(self, 'dict_log', None):
+            return False
+        c = z3.simplify(self.ev_cond(s.test, fr))
+        if z3.is_true(c) or z3.is_false(c):
+            return False
+        try:
+            v = self.with_assumption(c, lambda: self.ev(a.value, fr))
+        except Infeasible:
+            return True
+        except PyRaise:
+            return False           # let the ordinary (forking) execution deal with it
+        st = self.st
+        r = d.e
+        key = SVAL(t.slice.value)
+        try:
+            b = self.box(v)
+        except Unsupported:
+            return False
+        had = st.D_has[r][key]
+        n = st.D_n[r]
+        keys0 = st.D_key[r]
+        keys1 = st.fresh('keys', KeyArr)
+        n1 = st.fresh('n', I)
+        new = z3.And(c, z3.Not(had))
+        st.fact(z3.Implies(z3.Not(new), z3.And(keys1 == keys0, n1 == n)))
+        st.fact(z3.Implies(new, z3.And(keys1 == z3.Store(keys0, n, key), n1 == n + 1)))
+        st.set_arr('D_key', z3.Store(st.D_key, r, keys1), r)
+        st.set_arr('D_n', z3.Store(st.D_n, r, n1), r)
+        st.set_arr('D_has', z3.Store(st.D_has, r, z3.Store(st.D_has[r], key, z3.Or(had, c))), r)
+        st.set_arr('D_val', z3.Store(st.D_val, r, z3.Store(st.D_val[r], key, z3.If(c, b, st.D_val[r][key]))), r)
+        return True
+
     def ex_If(self, s, fr):
         if self.optional_append(s, fr):
+            return
+        if self.optional_setitem(s, fr):
             return
         c = self.ev_cond(s.test, fr)
         if self.decide(c):
@@ -3063,8 +3224,8 @@ class Interp:
             z3.substitute(self.as_str(c.val.py[0]), (c.K, wj)) == kq,
             z3.substitute(self.box(c.val.py[1]), (c.K, wj)) == val[kq])), patterns=[has[kq]]))
         st.fact(n >= 0)
-        st.fact(n <= comp_cnt(c.idx))
-        st.fact(z3.Implies(comp_cnt(c.idx) > 0, n > 0))
+        st.fact(n <= self.ccnt(c))
+        st.fact(z3.Implies(self.ccnt(c) > 0, n > 0))
         st.set_arr('D_has', z3.Store(st.D_has, r, has), r)
         st.set_arr('D_val', z3.Store(st.D_val, r, val), r)
         st.set_arr('D_key', z3.Store(st.D_key, r, keys), r)
